@@ -19,7 +19,7 @@ import time
 import traceback
 from concurrent.futures import ProcessPoolExecutor
 
-from . import ddmin, findings
+from . import ddmin, findings, procstate
 from .core import HarnessError, derive_seed, jdump, merge_counts
 
 RUN_TIMEOUT_S = 120
@@ -51,9 +51,12 @@ def run_spec(engine, spec, known_keys, timeout=None):
     signal.signal(signal.SIGALRM, _on_alarm)
     signal.alarm(timeout)
     faulthandler.dump_traceback_later(timeout + 30, exit=True)
+    shrunk = procstate.set_knob_seed(spec.get("seed"))  # block / chunk sizes of the library are per-run configuration
     try:
         res = engine.execute(spec, known_keys)
         res.setdefault("error", None)
+        for k in shrunk:
+            res.setdefault("faults", {})["knob:" + k.split("=")[0]] = 1
     except _RunTimeout:
         res = _blank_result()
         res["error"] = "timeout"
@@ -65,6 +68,7 @@ def run_spec(engine, spec, known_keys, timeout=None):
     finally:
         signal.alarm(0)
         faulthandler.cancel_dump_traceback_later()
+        procstate.set_knob_seed(None)
     return res
 
 
